@@ -16,6 +16,9 @@ structure Geo (s : St) : Prop where
   wlen : s.wraps.length = 25
   /-- `ScrollArea.unset()` always restores rows 1..24 -/
   act : s.active = false → s.top = 1 ∧ s.bottom = 24
+  /-- the theorems are about the adapters whose VIEW PRINT stops at row 24 (everything but Tandy/PCjr; the
+      flag never changes) -/
+  nt : s.tandy = false
 
 /-- the representation invariant: the cursor is inside the scroll window, or on row 25 after `LOCATE 25,c`;
     a pending wrap (`overflow`) only exists on the last column -/
@@ -72,7 +75,7 @@ theorem geo_scroll {s : St} (g : Geo s) : Geo (scroll s) := by
     rw [g.wlen]; have := g.tb; have := g.b24; omega
   unfold scroll
   simp only []
-  split <;> exact ⟨g.w, g.top1, g.tb, g.b24, h1, h2, h3, g.act⟩
+  split <;> exact ⟨g.w, g.top1, g.tb, g.b24, h1, h2, h3, g.act, g.nt⟩
 
 @[simp] theorem scroll_width (s : St) : (scroll s).width = s.width := by unfold scroll; simp only []; split <;> rfl
 @[simp] theorem scroll_top (s : St) : (scroll s).top = s.top := by unfold scroll; simp only []; split <;> rfl
@@ -87,9 +90,10 @@ theorem geo_scroll {s : St} (g : Geo s) : Geo (scroll s) := by
   unfold scroll; simp only []; split <;> rfl
 
 theorem Geo.of_eq {s t : St} (g : Geo s) (h1 : t.width = s.width) (h2 : t.top = s.top) (h3 : t.bottom = s.bottom)
-    (h4 : t.chars = s.chars) (h5 : t.wraps = s.wraps) (h6 : t.active = s.active) : Geo t :=
+    (h4 : t.chars = s.chars) (h5 : t.wraps = s.wraps) (h6 : t.active = s.active)
+    (h7 : t.tandy = s.tandy := by rfl) : Geo t :=
   ⟨h1 ▸ g.w, h2 ▸ g.top1, h2 ▸ h3 ▸ g.tb, h3 ▸ g.b24, h4 ▸ g.clen, h4 ▸ h1 ▸ g.rlen, h5 ▸ g.wlen,
-   h6 ▸ h2 ▸ h3 ▸ g.act⟩
+   h6 ▸ h2 ▸ h3 ▸ g.act, h7 ▸ g.nt⟩
 
 /-- column part of `_wrap_around_and_scroll_as_needed` -/
 def wrapCol (s : St) (scrollOk : Bool) : St :=
@@ -341,7 +345,7 @@ theorem win_setPos {s : St} (r c : Nat) (ok : Bool) (g : Geo s) (hb : s.bottomAl
   · exact key _ (g.of_eq rfl rfl rfl rfl rfl rfl) hb rfl rfl rfl rfl rfl rfl
 
 theorem geo_setWrap {s : St} (r : Nat) (v : Bool) (g : Geo s) : Geo (setWrap s r v) :=
-  ⟨g.w, g.top1, g.tb, g.b24, g.clen, g.rlen, by simp [setWrap, g.wlen], g.act⟩
+  ⟨g.w, g.top1, g.tb, g.b24, g.clen, g.rlen, by simp [setWrap, g.wlen], g.act, g.nt⟩
 
 /-- `_consume_overflow_before_write(False)`: a definite column, no pending wrap, same text -/
 theorem consumeOverflow_spec {s : St} (i : Inv s) :
@@ -391,7 +395,7 @@ theorem rlen_putCell {ch : List (List Nat)} {w : Nat} (h : ∀ x ∈ ch, x.lengt
   · exact h x (List.mem_of_getElem? hi)
 
 theorem geo_put {s : St} (g : Geo s) (r c v : Nat) : Geo { s with chars := putCell s.chars r c v } :=
-  ⟨g.w, g.top1, g.tb, g.b24, by simp [length_putCell, g.clen], rlen_putCell g.rlen r c v, g.wlen, g.act⟩
+  ⟨g.w, g.top1, g.tb, g.b24, by simp [length_putCell, g.clen], rlen_putCell g.rlen r c v, g.wlen, g.act, g.nt⟩
 
 theorem putCell_outside {ch : List (List Nat)} {top bottom r : Nat} (h1 : top ≤ r) (h2 : r ≤ bottom) (h0 : 1 ≤ top)
     (c v : Nat) : SameOutside top bottom (putCell ch r c v) ch := by
@@ -489,7 +493,7 @@ theorem rlen_clearRowsChars {w : Nat} {ch : List (List Nat)} (h : ∀ x ∈ ch, 
 
 theorem geo_clearRows {s : St} (g : Geo s) (a b : Nat) : Geo (clearRows s a b) :=
   ⟨g.w, g.top1, g.tb, g.b24, by simp [clearRows, length_clearRowsChars, g.clen],
-   rlen_clearRowsChars g.rlen a b, by simp [clearRows, length_clearRowsWraps, g.wlen], g.act⟩
+   rlen_clearRowsChars g.rlen a b, by simp [clearRows, length_clearRowsWraps, g.wlen], g.act, g.nt⟩
 
 theorem clearRows_outside (w : Nat) (ch : List (List Nat)) (a b : Nat) (h1 : 1 ≤ a) (h2 : a ≤ b) (h3 : b ≤ ch.length) :
     SameOutside a b (clearRowsChars w ch a b) ch := by
@@ -691,10 +695,11 @@ theorem inv_locate {s t : St} (i : Inv s) (r c : Option Int) (h : locate s r c =
 theorem inv_viewPrint {s t : St} (i : Inv s) (a : Option (Int × Int)) (h : viewPrint s a = .ok t) : Inv t := by
   have hw := i.w
   unfold viewPrint at h
+  simp only [i.nt, Bool.false_eq_true, if_false] at h
   split at h
   · injection h with h
     subst h
-    refine { toGeo := ⟨i.w, by simp, by simp [height], by simp [height], i.clen, i.rlen, i.wlen, by simp [height]⟩, col1 := i.col1,
+    refine { toGeo := ⟨i.w, by simp, by simp [height], by simp [height], i.clen, i.rlen, i.wlen, by simp [height], by first | rfl | exact i.nt⟩, col1 := i.col1,
              colw := i.colw, rowok := ?_, ovf := i.ovf }
     rcases i.rowok with h | h
     · left
@@ -710,7 +715,7 @@ theorem inv_viewPrint {s t : St} (i : Inv s) (a : Option (Int × Int)) (h : view
         injection h with h
         subst h
         simp only [Bool.and_eq_true, inRange_iff] at h1
-        refine { toGeo := ⟨i.w, ?_, ?_, ?_, i.clen, i.rlen, i.wlen, by simp⟩, col1 := ?_, colw := ?_, rowok := ?_, ovf := ?_ }
+        refine { toGeo := ⟨i.w, ?_, ?_, ?_, i.clen, i.rlen, i.wlen, by simp, by first | rfl | exact i.nt⟩, col1 := ?_, colw := ?_, rowok := ?_, ovf := ?_ }
           <;> simp only [] <;> try omega
         · left; exact ⟨by omega, by omega, trivial⟩
         · simp
@@ -730,11 +735,16 @@ theorem rlen_blankChars (w : Nat) : ∀ x ∈ blankChars w, x.length = w := by
   simp only [blankChars, List.mem_replicate] at hx
   rw [hx.2, length_blankRow]
 
-theorem inv_resetMode (s : St) (m w : Nat) (hw : w = 40 ∨ w = 80) : Inv (resetMode s m w) := by
+theorem inv_resetMode (s : St) (m w : Nat) (hw : w = 40 ∨ w = 80) (hb : s.bottom ≤ 24) (ht : s.tandy = false) :
+    Inv (resetMode s m w) := by
   unfold resetMode
+  have hk : decide (s.bottom = height) = false := by
+    have : s.bottom ≠ 25 := by omega
+    simp [height, this]
+  simp only [hk, Bool.false_eq_true, if_false]
   apply inv_setPos
   · exact ⟨hw, by simp, by simp [height], by simp [height], length_blankChars w, rlen_blankChars w,
-      by simp [blankWraps, height], by simp [height]⟩
+      by simp [blankWraps, height], by simp [height], ht⟩
   · simp only []; omega
 
 theorem graphicsWidth_ok : ∀ p ∈ Gen.TextModes.graphicsWidth, p.2 = 40 ∨ p.2 = 80 := by decide
@@ -763,7 +773,7 @@ theorem inv_screenStmt {s t : St} (i : Inv s) (m : Nat) (h : screenStmt s m = .o
     injection h with h
     subst h
     split
-    · exact inv_resetMode _ _ _ (modeWidth_ok i.w hm)
+    · exact inv_resetMode _ _ _ (modeWidth_ok i.w hm) i.b24 i.nt
     · exact i
 
 theorem lookup3_mem {l : List (Nat × Nat × Nat)} {k1 k2 v : Nat} (h : lookup3 l k1 k2 = some v) :
@@ -787,7 +797,7 @@ theorem inv_widthStmt {s t : St} (i : Inv s) (w : Nat) (h : widthStmt s w = .ok 
     · split at h
       · rename_i hc
         injection h with h; subst h
-        exact inv_resetMode _ _ _ (textWidths_ok w (by simpa using hc))
+        exact inv_resetMode _ _ _ (textWidths_ok w (by simpa using hc)) i.b24 i.nt
       · cases h
     · cases hl : lookup3 Gen.TextModes.toWidth s.mode w with
       | none => simp [hl] at h
@@ -799,7 +809,7 @@ theorem inv_widthStmt {s t : St} (i : Inv s) (w : Nat) (h : widthStmt s w = .ok 
         | some w' =>
           simp only [hl, hm] at h
           injection h with h; subst h
-          exact inv_resetMode _ _ _ (modeWidth_ok hw hm)
+          exact inv_resetMode _ _ _ (modeWidth_ok hw hm) i.b24 i.nt
 
 theorem inv_orError {s : St} (i : Inv s) (r : R St) (h : ∀ t, r = .ok t → Inv t) : Inv (orError s r).1 := by
   cases r with
@@ -824,7 +834,7 @@ theorem inv_step {s : St} (i : Inv s) (op : Op) : Inv (step s op) := by
 
 theorem inv_init : Inv init :=
   { toGeo := ⟨.inr rfl, Nat.le_refl 1, by decide, by decide, length_blankChars 80, rlen_blankChars 80,
-              by simp [init, blankWraps, height], fun _ => ⟨rfl, rfl⟩⟩,
+              by simp [init, blankWraps, height], fun _ => ⟨rfl, rfl⟩, rfl⟩,
     col1 := Nat.le_refl 1, colw := by decide, rowok := .inl ⟨Nat.le_refl 1, by decide, rfl⟩,
     ovf := by intro h; cases h }
 
